@@ -183,10 +183,12 @@ func Run(r *ev.Run) {
 	var cases []kcase
 	for _, aead := range []uint16{1, 2, 3} {
 		for _, retry := range []bool{false, true} {
-			for _, tgt := range []string{"T", "U", "T:sni-of-another-key", "T:retry-seq2"} {
+			for _, tgt := range []string{"T", "U", "T:sni-of-another-key", "T:retry-seq2", "B"} {
 				if tgt == "T:retry-seq2" && !retry {
 					continue
 				}
+				// (target B: the hello is sealed to key B with the AEAD that B's config does NOT list, consistently: never
+				// acceptable, whether B is held or not and whatever the other keys of the same id list)
 				for _, l := range lists {
 					if strings.Contains(tgt, ":") && len(l) > 3 && !r.Thorough() {
 						continue
@@ -230,7 +232,7 @@ func Run(r *ev.Run) {
 	for _, aead := range []uint16{1, 2, 3} {
 		ks := mk(aead)
 		for _, retry := range []bool{false, true} {
-			for _, tgt := range []string{"T", "U", "T:sni-of-another-key", "T:retry-seq2"} {
+			for _, tgt := range []string{"T", "U", "T:sni-of-another-key", "T:retry-seq2", "B"} {
 				for _, hasT := range []bool{false, true} {
 					var keys []ech.Key
 					if hasT {
